@@ -613,3 +613,35 @@ def names_eq(a: Iterable[Org], b: Iterable[Org]) -> bool:
     ka = {(o.kind, id(unawait(o.node)) if o.node is not None else o.name, o.idx) for o in a}
     kb = {(o.kind, id(unawait(o.node)) if o.node is not None else o.name, o.idx) for o in b}
     return ka == kb
+
+
+# ---------------------------------------------------------------------------------------------
+# seeded controls derived from the live source: the anchor is found by structure, the textual patch is
+# cut out of the module's own text, so renamed locals / changed log texts do not make a control vanish
+def src_patch(module: Any, first: int, last: int, edit: Callable[[str], str]) -> tuple[str, str] | None:
+    """(old, new) for sa.engine.controls: lines first..last (1-based, inclusive) of the module's source
+    rewritten by `edit`; context lines are added above until `old` occurs exactly once."""
+    lines = module.source.splitlines(keepends=True)
+    lo, hi = first - 1, last
+    if lo < 0 or hi > len(lines) or lo >= hi:
+        return None
+    old = "".join(lines[lo:hi])
+    new = edit(old)
+    while module.source.count(old) != 1 and lo > 0:
+        lo -= 1
+        old = lines[lo] + old
+        new = lines[lo] + new
+    return (old, new) if module.source.count(old) == 1 and old != new else None
+
+
+def seg(module: Any, node: ast.AST) -> str:
+    return ast.get_source_segment(module.source, node) or ""
+
+
+def stmt_patch(fn: FuncInfo, node: ast.AST, edit: Callable[[str], str]) -> tuple[str, str] | None:
+    """Patch covering the source lines of `node` (a statement or expression of fn)."""
+    return src_patch(fn.module, node.lineno, getattr(node, "end_lineno", node.lineno), edit)  # type: ignore[attr-defined]
+
+
+def indent_of(line: str) -> str:
+    return line[: len(line) - len(line.lstrip())]
